@@ -5,7 +5,7 @@
 From Coq Require Import Permutation.
 From CR Require Import Base Atomic Machine LinksFacts HeapFacts TraceFacts TraceTotal Local StackBound
   Termination Perm StdRc StdRefine Tokens InvDef InvLemmas ActBase ActHandles ActAdopt ActMove ActConsume
-  StepFrames StepPanic Purge GroupOps DropDec Group DropLast StepInv RunInv Consequences Common.
+  StepFrames StepPanic Purge GroupOps DropDec Group DropLast StepInv RunInv Consequences TablesFrame Recorded Common.
 Local Open Scope N_scope.
 
 Theorem C09_trace_result_order_independent :
@@ -67,3 +67,20 @@ Theorem C09_every_oracle :
   forall pri c, Inv_cfg c -> step_hyp c -> step_goal c (step pri c).
 Proof. exact step_inv. Qed.
 Print Assumptions C09_every_oracle.
+
+(** "programs that record every stored handle as an adoption": for such a state
+    ([recorded], values without scripts), every call that does not itself move
+    or record handles satisfies all hypotheses of the safety theorems at every
+    nested step, whatever the oracle, and re-establishes the premise *)
+Theorem C09_fully_recorded_programs :
+  forall pri fuel s o,
+  Inv s [] -> recorded (heap_of s) -> no_scripts {| st := s; stack := []; unw := false |} ->
+  quiet_op o = true ->
+  match snd (exec_op pri fuel s o) with
+  | OHalt h => h = HAbort
+  | OFuel => True
+  | _ => Inv (fst (exec_op pri fuel s o)) [] /\ recorded (heap_of (fst (exec_op pri fuel s o))) /\
+         no_scripts {| st := fst (exec_op pri fuel s o); stack := []; unw := false |}
+  end.
+Proof. exact exec_op_recorded_inv. Qed.
+Print Assumptions C09_fully_recorded_programs.
